@@ -45,7 +45,9 @@ Theorem C16_leading_ws : forall sp l, all_space sp = true -> parse_line (sp ++ l
 Proof. exact parse_line_lead_spaces. Qed.
 Theorem C16_trailing_ws : forall l sp, all_space sp = true -> parse_line (l ++ sp)%string = parse_line l.
 Proof. exact parse_line_trail_spaces. Qed.
-Theorem C16_comment : forall l c, plain l = true -> parse_line (l ++ " // " ++ c)%string = parse_line l.
+(* (l must not end with the token base64 / b64: after these keywords "// c" is base64 data, not a comment) *)
+Theorem C16_comment : forall l c, plain l = true -> last_tok_b64 l = false ->
+  parse_line (l ++ " // " ++ c)%string = parse_line l.
 Proof. exact parse_line_comment. Qed.
 
 Print Assumptions C16_dispatch_key.
@@ -172,15 +174,25 @@ Theorem C16_base32_decoder_correct :
   forall bs : list N, is_bytes bs -> b32_decode (b32_encode bs) = ("0x" ++ hex_spec bs)%string.
 Proof. exact @b32_decode_padded. Qed.
 
-(* a `byte base64 <X>` line whose payload contains no `//` parses to the hex form of the encoded bytes *)
+(* a `byte base64 <X>` line parses to the hex form of the encoded bytes, for EVERY byte string and any number of `=`
+   (the payload may contain `/` and `//`; it only has to be there: the empty payload is the line `byte base64`) *)
 Theorem C16_base64_literal_is_its_bytes :
   forall (kw sp : string) (bs : list N) (n : nat),
        bytes1_kw kw ->
        sp = "base64" \/ sp = "b64" ->
        is_bytes bs ->
-       ParseLemmas.word_ok (b64_encode_nopad bs ++ eqs n) = true ->
+       (b64_encode_nopad bs ++ eqs n)%string <> ""%string ->
        parse_line (kw ++ " " ++ sp ++ " " ++ b64_encode_nopad bs ++ eqs n) = Ok (Some (IOther (bytes_cls kw) (PStr ("0x" ++ hex_spec bs) :: nil))).
 Proof. exact @parse_base64_literal. Qed.
+
+(* the parenthesised spelling, unconditionally *)
+Theorem C16_base64_paren_literal_is_its_bytes :
+  forall (kw sp : string) (bs : list N) (n : nat),
+       bytes1_kw kw ->
+       sp = "base64(" \/ sp = "b64(" ->
+       is_bytes bs ->
+       parse_line (kw ++ " " ++ sp ++ (b64_encode_nopad bs ++ eqs n) ++ ")") = Ok (Some (IOther (bytes_cls kw) (PStr ("0x" ++ hex_spec bs) :: nil))).
+Proof. exact @parse_base64_paren_literal. Qed.
 
 Theorem C16_base32_literal_is_its_bytes :
   forall (kw sp : string) (bs : list N) (n : nat),
@@ -191,19 +203,49 @@ Theorem C16_base32_literal_is_its_bytes :
        parse_line (kw ++ " " ++ sp ++ " " ++ b32_encode_nopad bs ++ eqs n) = Ok (Some (IOther (bytes_cls kw) (PStr ("0x" ++ hex_spec bs) :: nil))).
 Proof. exact @parse_base32_literal. Qed.
 
-(* REFUTED (finding D30): a canonical base64 payload containing `//` (e.g. //8= for ff ff) is cut as a comment *)
-Theorem C16_base64_literal_with_slashes_refuted :
+(* finding D30, repaired: a canonical base64 payload containing `//` (//8= for ff ff) is data, not a comment *)
+Theorem C16_base64_literal_with_slashes :
+  parse_line "byte base64 //8=" = Ok (Some (IOther "Byte" [PStr "0xffff"])).
+Proof. exact fixed_b64_1. Qed.
+
+(* generally: the canonical padded encoding of every non-empty byte string, and all three spellings of ff ff *)
+Theorem C16_base64_literal_with_slashes_general :
+  forall (kw sp : string) (bs : list N),
+       bytes1_kw kw ->
+       sp = "base64" \/ sp = "b64" ->
+       is_bytes bs ->
+       bs <> nil ->
+       parse_line (kw ++ " " ++ sp ++ " " ++ b64_encode bs) = Ok (Some (IOther (bytes_cls kw) (PStr ("0x" ++ hex_spec bs) :: nil))).
+Proof. exact @parse_base64_literal_padded. Qed.
+
+Theorem C16_base64_literal_with_slashes_spellings :
   exists bs : list N,
          is_bytes bs /\
          b64_encode bs = "//8=" /\
-         parse_line ("byte base64 " ++ b64_encode bs) = Err "ParseError: incorrect byte format" /\
-         parse_line ("byte base64(" ++ b64_encode bs ++ ")") = Err "ParseError: expects exactly one argument" /\
+         parse_line ("byte base64 " ++ b64_encode bs) = Ok (Some (IOther "Byte" (PStr "0xffff" :: nil))) /\
+         parse_line ("byte base64(" ++ b64_encode bs ++ ")") = Ok (Some (IOther "Byte" (PStr "0xffff" :: nil))) /\
          parse_line ("byte 0x" ++ hex_spec bs) = Ok (Some (IOther "Byte" (PStr "0xffff" :: nil))).
-Proof. exact @parse_base64_literal_refuted. Qed.
+Proof. exact @parse_base64_literal_slashes. Qed.
+
+(* a comment after base64 data is still a comment; tokens with base64 data, in general *)
+Theorem C16_base64_then_comment :
+  parse_line "byte base64 //8= // c" = Ok (Some (IOther "Byte" [PStr "0xffff"])) /\
+  parse_line "byte b64 AB// // c" = Ok (Some (IOther "Byte" [PStr "0x001fff"])) /\
+  parse_line "bytecblock base64 //8= b64 AA//" = Ok (Some (IOther "Bytecblock" [PStrs ["0xffff"; "0x000fff"]])) /\
+  parse_line "byte base64 // missing" = Err "ParseError: incorrect byte format".
+Proof. split; [exact fixed_b64_2|split; [exact fixed_b64_4|split; [exact fixed_b64_5|exact fixed_b64_6]]]. Qed.
+Theorem C16_tokens_with_base64_data :
+  forall ts : list string, ts <> nil -> toks_ok ts -> parse_line (join " " ts) = ParseLemmas.parse_fields ts.
+Proof. exact @parse_line_toks_b64. Qed.
 
 Print Assumptions C16_base64_decoder_correct.
 Print Assumptions C16_base64_decoder_correct_unpadded.
 Print Assumptions C16_base32_decoder_correct.
 Print Assumptions C16_base64_literal_is_its_bytes.
 Print Assumptions C16_base32_literal_is_its_bytes.
-Print Assumptions C16_base64_literal_with_slashes_refuted.
+Print Assumptions C16_base64_paren_literal_is_its_bytes.
+Print Assumptions C16_base64_literal_with_slashes.
+Print Assumptions C16_base64_literal_with_slashes_general.
+Print Assumptions C16_base64_literal_with_slashes_spellings.
+Print Assumptions C16_base64_then_comment.
+Print Assumptions C16_tokens_with_base64_data.
